@@ -12,8 +12,14 @@ SLH-DSA over the abstract tweakable-hash model `Model/SlhStruct.lean`:
    big-endian integer (Algorithm 4);
 2. `chain_add`, `wotsPkFromSig_sign`: WOTS⁺ chains compose and a genuine WOTS⁺ signature verifies;
 3. `csum_strict_anti`, `wots_checksum_blocks_forward_forgery`: the checksum property;
-4. `climb_treeNode`, `xmssPkFromSig_sign`: Merkle authentication paths;
-5. `forsPkFromSig_sign`, `htVerify_sign`, `slhVerify_sign`, and the Table 2 digest-length check.
+4. `climb_treeNode`, `rootFromPath_authPath`: Merkle authentication paths;
+5. `xmssPkFromSig_sign`, `htVerify_sign`, `forsPkFromSig_sign`, `slhVerify_sign`: XMSS, hypertree, FORS and
+   the whole scheme verify their own signatures;
+6. `table2_*`: the twelve parameter sets of Table 2 satisfy the side conditions (digest split length `m`,
+   `h = d·h'`, `len₁·lg_w = 8n`, `len₁(w−1) < w^len₂`);
+7. a toy instantiation showing that no hypothesis is vacuous and that the conclusions are not trivial.
+
+None of the theorems assumes anything about the hash functions.
 -/
 
 namespace TinkVerif.Slh
@@ -470,6 +476,15 @@ theorem rootFromPath_authPath (H : Adrs → Bytes → Bytes) (leaf : Nat → Byt
   simp only [Nat.pow_zero, Nat.div_one, Nat.zero_add, treeNode] at this
   rw [rootFromPath, merkleRoot, this, Nat.div_eq_of_lt hidx]
 
+/-- the same for a tree given by the list of its `2^h` leaves -/
+theorem rootFromPath_authPath_list (H : Adrs → Bytes → Bytes) (leaves : List Bytes) (adrs : Adrs) (h idx : Nat)
+    (hlen : leaves.length = 2 ^ h) (hidx : idx < leaves.length) :
+    rootFromPath H adrs h leaves[idx] idx (authPath H (fun i => leaves.getD i []) adrs idx h)
+      = merkleRoot H (fun i => leaves.getD i []) adrs h := by
+  have := rootFromPath_authPath H (fun i => leaves.getD i []) adrs h idx (by omega)
+  simp only [List.getD_eq_getElem?_getD, List.getElem?_eq_getElem hidx, Option.getD_some] at this ⊢
+  exact this
+
 /-- without `idx < 2^h` the walk ends at the ancestor `⌊idx / 2^h⌋` of level `h` -/
 theorem rootFromPath_authPath_general (H : Adrs → Bytes → Bytes) (leaf : Nat → Bytes) (adrs : Adrs) (h idx : Nat) :
     rootFromPath H adrs h (leaf idx) idx (authPath H leaf adrs idx h) = treeNode H leaf adrs (idx / 2 ^ h) h := by
@@ -479,7 +494,9 @@ theorem rootFromPath_authPath_general (H : Adrs → Bytes → Bytes) (leaf : Nat
   simp only [Nat.pow_zero, Nat.div_one, Nat.zero_add, treeNode] at this
   rw [rootFromPath, this]
 
-/-! ### XMSS (§6) -/
+/-! ## 5. XMSS, hypertree, FORS, SLH-DSA: genuine signatures verify
+
+### XMSS (§6) -/
 
 /-- `xmss_node` is the generic tree over the WOTS⁺ public keys -/
 theorem xmssNode_eq_treeNode (th : TH) (p : WP) (skSeed : Bytes) (adrs : Adrs) (i z : Nat) :
@@ -738,6 +755,7 @@ open TinkVerif.Slh TinkVerif.SlhStruct
 #print axioms wots_checksum_blocks_forward_forgery
 #print axioms climb_treeNode
 #print axioms rootFromPath_authPath
+#print axioms rootFromPath_authPath_list
 #print axioms rootFromPath_authPath_general
 #print axioms xmssPkFromSig_sign
 #print axioms htVerify_sign
